@@ -6,6 +6,8 @@ import time
 
 VERIF = os.path.dirname(os.path.dirname(os.path.abspath(__file__)))
 KNOWN_FINDINGS = os.path.join(VERIF, 'known_findings.json')
+# development tools that analyse scratch variants redirect evidence/replay files away from the committed ones
+OUT = os.environ.get('SFCV_OUT_DIR') or VERIF
 
 
 class Obligation(object):
@@ -142,7 +144,7 @@ def emit(text):
 
 
 def write_replay(check, obligations):
-    d = os.path.join(VERIF, 'replay')
+    d = os.path.join(OUT, 'replay')
     os.makedirs(d, exist_ok=True)
     path = os.path.join(d, '%s_%s.json' % (check.pid, check.tier))
     with open(path, 'w') as f:
@@ -152,7 +154,7 @@ def write_replay(check, obligations):
 
 
 def write_evidence(check, seed, checker_cmd, n_new, n_known):
-    d = os.path.join(VERIF, 'evidence')
+    d = os.path.join(OUT, 'evidence')
     os.makedirs(d, exist_ok=True)
     obs = check.obligations
     distinct = len({(o.rule, o.key) for o in obs})
